@@ -81,7 +81,7 @@ def rs_show(rs):
 
 
 def expect(chk, rule, anchor, got, want, where=None, what="value", key=None):
-    okk = got == want
+    okk = sym.sem_eq(got, want)
     chk.ob(rule, anchor, okk, ("%s is as specified: %s" % (what, show(want)[:200])) if okk else
            "%s differs from the specification — found: %s ; specified: %s" % (what, show(got)[:600], show(want)[:600]),
            where, key=key or what)
